@@ -75,10 +75,11 @@ where
         let replace_end = self.start + self.replace_with.len();
         let new_len = replace_end + elements_left;
 
-        // 0. capacity.
+        // 0. capacity. `reserve` takes the number of additional elements,
+        // and `len` is `start` now.
         {
             let any_vec_raw = unsafe{any_vec_ptr.any_vec_raw_mut()};
-            any_vec_raw.reserve(new_len);
+            any_vec_raw.reserve(new_len - self.start);
         }
 
         // 1. drop elements.
